@@ -268,6 +268,60 @@ CHECKS['C12'] = {
     'technique': 'bounded exhaustive configuration-space exploration with per-iterate invariants and a bounded-liveness horizon',
 }
 
+# what the seeded waves added (DESIGN.md 6.2): history clauses and regimes, per check
+ADDENDA = {
+    'C01': ' Added: divisors with exact zeros (IEEE reference), operands that are overlapping views of one '
+           'buffer, power-space broadcasting with an operand that is (or shares memory with) a part of the target.',
+    'C02': ' Added: partitions with arbitrary boundary-cell fractions (rational reference weights), one-cell axes, '
+           'operand layout pairs (C / F / transposed / strided) below and above the BLAS threshold, histories of '
+           'in-place overwrites of the weight array (all orders up to length 3) against the formula for the shown weights.',
+    'C03': ' Added: attribute closure to depth 2 (3 thorough); history inside a state - the result of the previous '
+           'out-of-place call is held and must survive the next call; non-finite results are re-executed under a second '
+           'poison value (uninitialised memory); gradient operators, QuadraticForm over every return convention, '
+           'stepped component slices, sampling runs as registry rows.',
+    'C04': ' Added: operand histories (the element operand of every arithmetic form that copies on the pinned tree is '
+           'overwritten in place afterwards; value and derived objects must not move), reflected products of '
+           'field-domain operators with functionals, boundary exponents of A ** n.',
+    'C05': ' Added: history inside a state - A before / after its adjoint and adjoint.adjoint were built and used, '
+           'A.adjoint requested again, and the identity re-decided (A now vs A.adjoint requested now) after the data '
+           'elements handed to the constructor were doubled in place.',
+    'C06': ' Added: history inside a state - D(e) applied twice, a derivative taken at a private point unchanged by all '
+           'later calls (also for the accuracy-exempt finite-difference classes), gradient operators (Hessians) as instances.',
+    'C07': ' Added: history inside a state - step element unmodified, prox applied again, a second operator from the same '
+           'step object, values unchanged => proximal unchanged after the data elements were doubled in place; scaled and '
+           'same-object separable sums with per-component step lists.',
+    'C08': ' Added: non-finite proximal values are judged (poisoned allocations make unwritten outputs visible); '
+           'simple_functional; constant-only quadratic perturbation.',
+    'C09': ' Added: simple_functional (which ingredients, callables vs operators), NumericalGradient on sizes 1, 2, 4 and '
+           'a 2-d space, Huber on weighted vector fields, constant-only quadratic perturbation.',
+    'C10': ' Added: the factories on spaces above the BLAS threshold (60000 entries), element steps through the wrappers, '
+           'the aliased call re-checked after the data element was updated in place.',
+    'C11': ' Added: random update orders with numpy.random owned by the harness (drawn permutations recorded, vacuity '
+           'test), square non-alias-safe operators for every solver, a reference loop for pdhg, falsy callback objects, '
+           'caller-owned sensitivities.',
+    'C12': ' Added: problem families over PartialDerivative (domain == range), scaled instances and warm starts for the '
+           'linear solvers, power method started at the operator\'s own multiplicand.',
+    'C13': ' Added: kept result objects re-read after later calls, mixed in-place / out-of-place sequences on one '
+           'operator object (and on its adjoint obtained once) against a fresh operator.',
+    'C14': ' Added: every array argument of the constructors is overwritten in place after construction (snapshot of all '
+           'observables must not move); write-through of RETURNED arrays is counted, not judged.',
+    'C15': ' Added: call histories on one vectorize wrapper / sampling function against fresh ones, value-array layouts, '
+           'value dtype of the space x grids off the float32 lattice, aliasing of the grid by sampled elements, '
+           'single-node axes, callable forms (partial, bound methods, builtins), points far outside the node hull (counted).',
+    'C16': ' Added: integer and mixed (input, out) dtypes with an exact integer reference, offsets on unchanged axes, '
+           'constructor-argument histories (pad_const, ran_shp, offset, limits overwritten in place afterwards).',
+    'C17': ' Added: operands from the base space of (nested) power spaces, special values (NaN per part, +-inf, signed '
+           'zeros) in reductions, layouts of the parts of power-space elements (permuted rows of one array, the same part twice).',
+    'C18': '',
+    'C19': ' Added: near-unit axes and rounded rotation matrices, slicing x every non-default constructor keyword, '
+           'reused parameter buffers (refilled in place between calls, alternating geometry objects).',
+    'C20': ' Added: one variant per defining field of every composite class (pairs differing in exactly one field, both '
+           'operand orders), shared-array histories for array weightings, constructor-argument histories.',
+}
+for _p, _t in ADDENDA.items():
+    if _p in CHECKS and _t:
+        CHECKS[_p]['text'] += _t
+
 _PENDING = 'check under construction in this session; not claimed until it runs quietly on the unchanged tree'
 NOT_APPLICABLE = dict((p, _PENDING) for p in
                       [])
